@@ -442,7 +442,7 @@ func (w *worker) run(ops []opSpec) {
 }
 
 // watchdog: how long a run may take before its unfinished operations count as hung
-const watchdog = 2 * time.Second
+const watchdog = 8 * time.Second
 
 func waitTimeout(ch <-chan struct{}, d time.Duration) bool {
 	t := time.NewTimer(d)
